@@ -13,6 +13,7 @@ Single-sample cases are rendered as literal expression strings (the path a stude
 the exact per-sample values through ScriptedSampler variables, or (LinearComparer, random driver) through the
 expression  a*x+b  over a scripted variable x.
 """
+import json
 import os
 import re
 from fractions import Fraction
@@ -143,8 +144,8 @@ def comparer_for(case, hints):
     return None                                   # 'equal': the grader's default comparer
 
 
-def build(case, hints):
-    """-> (grader, student_input)"""
+def build(case, hints, comparer=None):
+    """-> (grader, student_input); comparer: an existing comparer OBJECT to be shared instead of a fresh one"""
     from mitxgraders import FormulaGrader, NumericalGrader, MatrixGrader
     from engine.fixtures import ScriptedSampler
     kind = case['kind']
@@ -152,7 +153,7 @@ def build(case, hints):
     style = hints.get('style', 'lit' if n == 1 else 'script')
     form = hints.get('form', 'plain')
     jit = case['jit']
-    comparer = comparer_for(case, hints)
+    comparer = comparer if comparer is not None else comparer_for(case, hints)
     cfg = {'tolerance': TOL[case['tol']]}
     matrix = kind not in ('cong', 'between') and not (
         kind == 'linear' and len(case['S'][0]['shape']) == 0 and len(case['P'][0][0]['shape']) == 0
@@ -200,20 +201,62 @@ def scripted_draws_misaligned(grader):
     from engine.fixtures import ScriptedSampler
     n = grader.config['samples']
     for name, sampler in grader.config.get('sample_from', {}).items():
-        if isinstance(sampler, ScriptedSampler) and len(sampler.draws) not in (0, n):
+        if isinstance(sampler, ScriptedSampler) and len(sampler.draws) % n != 0:      # (graders are reused: k calls)
             return 'variable %s was drawn %d times for %d samples' % (name, len(sampler.draws), n)
     return None
 
 
-def observe(case, hints):
-    """run the real grader; returns the observation record of Comparers (plus the raw message)"""
+def config_error(e):
+    return {'k': 'config', 'g': [0, 1], 'ok': '-', 'lvl': 'other', 'cls': type(e).__name__, 'sf': False,
+            'msg': str(e)[:200], 'input': None}
+
+
+# graders of literal-style cases are REUSED across cases with the same configuration (same comparer object, same
+# grader object, other submissions): the verdict of a call must not depend on what the object graded before
+GRADER_CACHE = {}
+GRADER_CACHE_MAX = 48
+
+
+def cache_key(case, hints):
+    if len(case['S']) != 1 or hints.get('style', 'lit') != 'lit':
+        return None
+    return json.dumps([case['kind'], case['tol'], case['policy'], case['mode'], case['cfg'], case['P'],
+                       hints.get('grader'), hints.get('via')], sort_keys=True)
+
+
+def observe(case, hints, comparer=None, reuse=False):
+    """run the real grader; returns the observation record of Comparers (plus the raw message).
+    reuse: take the grader (and its comparer object) from GRADER_CACHE when the same configuration was built before;
+    the observation then carries 'before' = the inputs that object has already graded"""
+    key = cache_key(case, hints) if reuse else None
+    try:
+        if key is not None and key in GRADER_CACHE:
+            grader, before = GRADER_CACHE[key]
+            student = build_student(case, hints)
+        else:
+            grader, student = build(case, hints, comparer)
+            before = []
+            if key is not None:
+                if len(GRADER_CACHE) >= GRADER_CACHE_MAX:
+                    GRADER_CACHE.pop(next(iter(GRADER_CACHE)))
+                GRADER_CACHE[key] = (grader, before)
+    except Exception as e:                        # a configuration the real code refuses: machinery, not a verdict
+        return config_error(e)
+    obs = call_grader(grader, student)
+    obs['before'] = list(before[-6:])
+    before.append(student)
+    return obs
+
+
+def build_student(case, hints):
+    if case['evalerr']:
+        return EVALERR_INPUT
+    return value_text(case['S'][0], hints.get('form', 'plain'), case['jit'], case['tol'])
+
+
+def call_grader(grader, student):
     from mitxgraders.exceptions import StudentFacingError, InputTypeError
     from mitxgraders.helpers.calc.exceptions import MathArrayShapeError
-    try:
-        grader, student = build(case, hints)
-    except Exception as e:                        # a configuration the real code refuses: machinery, not a verdict
-        return {'k': 'config', 'g': [0, 1], 'ok': '-', 'lvl': 'other', 'cls': type(e).__name__, 'sf': False,
-                'msg': str(e)[:200], 'input': None}
     try:
         r = grader(None, student)
     except Exception as e:
@@ -362,10 +405,22 @@ def replay_states(states, extra):
         c = st['c']
         if c['kind'] == 'seed':
             continue
+        if c['kind'] == 'history':
+            h = replay_history(c, st['out'])
+            n += h['n']
+            keys['history:%s/len%d' % (c['obj'], len(c['hist']))] = keys.get('history:%s/len%d' % (c['obj'], len(c['hist'])), 0) + 1
+            for k in h['keys']:
+                keys[k] = keys.get(k, 0) + 1
+            bad += h['bad']
+            drift += h['drift'][:max(0, 3 - len(drift))]
+            config_errors += h['config_errors']
+            if sample is None:
+                sample = h['sample']
+            continue
         n += 1
         case, allowed, rel = st['out']['case'], st['out']['allowed'], st['out']['rel']
         hints = hints_of(c)
-        obs = observe(case, hints)
+        obs = observe(case, hints, reuse=True)
         key = '%s/%s' % (case['kind'] if c['kind'] != 'shape' else 'shape:' + case['kind'], rel)
         keys[key] = keys.get(key, 0) + 1
         if obs['k'] == 'config':
@@ -379,7 +434,8 @@ def replay_states(states, extra):
         if not any(matches(obs, a) for a in allowed):
             why = st['out'].get('why')
             why = why if (why and why != 'none' and impl and matches(obs, impl)) else None
-            bad.append({'sig': signature(case, hints, allowed, obs, rel, why), 'case': case, 'hints': hints})
+            bad.append({'sig': signature(case, hints, allowed, obs, rel, why), 'case': case, 'hints': hints,
+                        'before': obs.get('before', [])})
         elif impl and not matches(obs, impl) and len(drift) < 3:
             drift.append('implementation-shaped model (Comparers!ImplOutcome) predicts %s for %s %s / %r, code gave %s' % (
                 token_text(impl), case['kind'], [value_text(v) for v in case['P'][0]], obs['input'], obs_text(obs)))
@@ -390,6 +446,77 @@ def replay_states(states, extra):
     return {'n': n, 'keys': keys, 'bad': bad, 'sample': sample, 'drift': drift, 'config_errors': config_errors}
 
 
+# ------------------------------------------------------------------------------------------------ histories on one object
+HIST_EXPECT = {'A': 'x', 'B': '[x,2*x-1]', 'Z': '0*x'}
+HIST_SQ = {'A': 'x^2', 'B': '[x^2,(2*x-1)^2]', 'Z': '(0*x)^2'}
+HIST_X = [1, 2, 4]
+
+
+def hist_student(g, sub):
+    e = HIST_EXPECT[g]
+    ones = '[1,1]' if g == 'B' else '1'
+    return {'zero': '0*(%s)' % e, 'prop': '2*(%s)' % e, 'offset': '(%s)+%s' % (e, ones),
+            'linear': '2*(%s)+%s' % (e, ones), 'equal': e, 'sq': HIST_SQ[g]}[sub]
+
+
+def replay_history(c, out):
+    """one comparer OBJECT, one grader object per grader name sharing it, the calls of c.hist in order; every call is
+    compared with the outcome the specification allows for that call alone"""
+    from mitxgraders import FormulaGrader, MatrixGrader, LinearComparer, MatrixEntryComparer
+    from engine.fixtures import ScriptedSampler
+    res = {'n': 0, 'keys': [], 'bad': [], 'drift': [], 'config_errors': [], 'sample': None}
+    try:
+        if c['obj'] == 'linear':
+            comparer = LinearComparer(**{k: credit_py(v) for k, v in c['cfg'].items()})
+        else:
+            m = c['mode']
+            comparer = MatrixEntryComparer(entry_partial_credit='proportional' if m['k'] == 'prop' else credit_py(m['v']))
+    except Exception as e:
+        res['config_errors'].append({'c': c, 'error': str(e), 'cls': type(e).__name__})
+        return res
+    graders = {}
+    done = []
+    for call, entry in zip(c['hist'], out['calls']):
+        case = entry['case']
+        try:
+            if call['g'] not in graders:
+                if c['obj'] == 'linear':
+                    cls = MatrixGrader if call['g'] == 'B' else FormulaGrader
+                    graders[call['g']] = cls(answers={'comparer': comparer, 'comparer_params': [HIST_EXPECT[call['g']]]},
+                                             variables=['x'], samples=len(HIST_X), tolerance=TOL[case['tol']],
+                                             sample_from={'x': ScriptedSampler(script=list(HIST_X))})
+                else:
+                    graders[call['g']] = MatrixGrader(answers={'comparer': comparer,
+                                                               'comparer_params': [value_text(case['P'][0][0])]},
+                                                      max_array_dim=2, tolerance=TOL[case['tol']])
+            student = hist_student(call['g'], call['sub']) if c['obj'] == 'linear' else value_text(case['S'][0])
+        except Exception as e:
+            res['config_errors'].append({'c': c, 'error': str(e), 'cls': type(e).__name__})
+            return res
+        obs = call_grader(graders[call['g']], student)
+        res['n'] += 1
+        if obs['k'] == 'config':
+            res['config_errors'].append({'c': c, 'error': obs['msg'], 'cls': obs['cls']})
+            return res
+        obs['before'] = ['%s: %s' % d for d in done]
+        if not any(matches(obs, a) for a in entry['allowed']):
+            sig = signature(case, {}, entry['allowed'], obs, 'history')
+            sig['history_on_same_comparer_object'] = obs['before']
+            sig['grader'] = call['g']
+            if not sig['class'] and done:
+                sig['class'] = None
+            res['bad'].append({'sig': sig, 'case': case, 'hints': {}, 'before': obs['before'],
+                               'history': {'c': c, 'upto': len(done) + 1}})
+        elif not matches(obs, entry['impl']) and len(res['drift']) < 2:
+            res['drift'].append('object model (Comparers!ImplOutcomeOnObject) predicts %s after %s for %r, code gave %s' % (
+                token_text(entry['impl']), obs['before'], student, obs_text(obs)))
+        done.append((call['g'], student))
+        if res['sample'] is None and len(done) == len(c['hist']) and len(done) > 1:
+            res['sample'] = {'history_on_one_%s_comparer_object' % c['obj']: ['%s: %s' % d for d in done],
+                             'last_allowed': [token_text(a) for a in entry['allowed']], 'last_observed': obs_text(obs)}
+    return res
+
+
 EXPECTED_CLASSES = {
     'cong': ['cong/member', 'cong/nonmember', 'cong/silent'],
     'between': ['between/member', 'between/nonmember', 'between/silent'],
@@ -398,13 +525,15 @@ EXPECTED_CLASSES = {
     'phase': ['phase/member', 'phase/nonmember'],
     'entry': ['entry/member', 'entry/nonmember', 'entry/partial'],
     'linear': ['linear/member', 'linear/nonmember', 'linear/partial', 'linear/ambiguous'],
+    'history': ['history:linear/len3', 'history:entry/len3', 'history:linear/len1'],
     'shape': ['shape:%s/%s' % (k, r) for k in ('equal', 'entry', 'eigen', 'span', 'phase', 'linear')
               for r in ('wrongshape', 'evalerr')],
 }
-PARTS = ['cong', 'between', 'eigen', 'span', 'phase', 'entry', 'linear', 'shape']
+PARTS = ['cong', 'between', 'eigen', 'span', 'phase', 'entry', 'linear', 'shape', 'history']
 VARIANTS = [('flaw_ordering_between', 'between-real-typed-complex'), ('flaw_ordering_cong', 'congruence-real-typed-complex'),
             ('flaw_congruence_linear', 'congruence-wraparound'), ('flaw_span_residual', 'span-rank-deficient'),
-            ('flaw_linear_squares', 'linear-complex-sum-of-squares')]
+            ('flaw_linear_squares', 'linear-complex-sum-of-squares'),
+            ('flaw_aliased_modes', None)]               # object state: a zero submission disables proportional / linear
 
 
 class Reporter(object):
@@ -444,7 +573,8 @@ def run(ctx):
             if r['config_errors']:
                 raise Machinery('the real code refused a generated configuration: %r' % (r['config_errors'][0],))
             for b in r['bad']:
-                rep.report(b['sig'], {'case': b['case'], 'hints': b['hints']})
+                rep.report(b['sig'], {'case': b['case'], 'hints': b['hints'], 'before': b.get('before', []),
+                                      'history': b.get('history')})
         missing = [k for k in EXPECTED_CLASSES[part] if not classes.get(k)]
         if missing:
             raise Machinery('vacuity: part %s never produced the classes %s' % (part, missing))
@@ -456,10 +586,10 @@ def run(ctx):
     for name, want in VARIANTS:
         r = ctx.tlc('arrays/MC_Comparers.tla', 'arrays/MC_Comparers_%s.cfg' % name, must_hold=False, timeout=1500)
         found = re.findall(r'why \|-> "([^"]+)"', r.out)
-        if 'ImplRefines_' not in r.violated or not found or found[-1] != want:
+        if 'ImplRefines_' not in r.violated or (want is not None and (not found or found[-1] != want)):
             raise Machinery('vacuity guard: model variant %s does not violate ImplRefines_ with class %s (violated=%s, '
                             'class=%s)\n%s' % (name, want, r.violated, found[-1:] or None, r.out[-1500:]))
-        variants[name] = want
+        variants[name] = want or 'history-dependent verdict'
     ctx.extra['model_variants_violating'] = variants
     # the current code still leaves the class for the eigenvalue 0 (known finding): informational, never a failure
     r = ctx.tlc('arrays/MC_Comparers.tla', 'arrays/MC_Comparers_eigen_impl.cfg', must_hold=False, timeout=1500)
@@ -496,7 +626,9 @@ def run(ctx):
         obs = dict(r['obs'], msg=r['obs_msg'], input=r['obs_input'])
         allowed, why = parse_summary(clause)
         sig = signature(r, r['hints'], allowed, obs, 'trace', why)
-        rep.report(sig, {'case': case_of(r), 'hints': r['hints'], 'allowed_text': clause})
+        if r.get('obs_before'):
+            sig['history_on_same_comparer_object'] = r['obs_before']
+        rep.report(sig, {'case': case_of(r), 'hints': r['hints'], 'allowed_text': clause, 'before': r.get('obs_before', [])})
     for r in recs[:2]:
         ctx.sample({'trace_record': {'comparer': r['kind'], 'params': [value_text(v) for v in r['P'][0]],
                                      'input': r['obs_input'], 'observed': obs_text(r['obs'])}}, limit=12)
@@ -552,17 +684,33 @@ def parse_tokens(text):
     return out
 
 
-def observe_chunk(cases, extra):
+def observe_chunk(groups, extra):
+    """groups: lists of cases; the cases of one group are graded, in order, with ONE comparer object (LinearComparer /
+    MatrixEntryComparer with the group's configuration) shared by their graders; single cases reuse cached graders"""
     from engine import repo
     repo.activate()
     out = []
-    for r in cases:
-        obs = observe(case_of(r), r['hints'])
-        r = dict(r)
-        r['obs_msg'] = obs.pop('msg')
-        r['obs_input'] = obs.pop('input')
-        r['obs'] = obs
-        out.append(r)
+    for group in groups:
+        shared = None
+        done = []
+        for r in group:
+            if len(group) > 1:
+                try:
+                    shared = shared if shared is not None else comparer_for(case_of(r), r['hints'])
+                    obs = observe(case_of(r), r['hints'], comparer=shared)
+                except Exception as e:
+                    obs = config_error(e)
+                    obs['before'] = []
+                obs['before'] = list(done)
+            else:
+                obs = observe(case_of(r), r['hints'], reuse=True)
+            done.append(obs.get('input'))
+            r = dict(r)
+            r['obs_msg'] = obs.pop('msg')
+            r['obs_input'] = obs.pop('input')
+            r['obs_before'] = obs.pop('before', [])
+            r['obs'] = obs
+            out.append(r)
     return out
 
 
@@ -817,11 +965,14 @@ def coef_text(z, d):
     return entry_text(z, d)
 
 
-def gen_linear(rng):
+def gen_linear(rng, cfg=None, force=None):
+    """cfg: credits shared by a group;  force: 'zero_student' | 'zero_expected' | 'prop' | 'lin' | 'off' | None"""
     c = base_case('linear', rng)
     ns = rng.randint(3, 6)
     cplx = rng.random() < 0.25
     kindx = rng.choice(['distinct', 'distinct', 'distinct', 'const', 'zero', 'free'])
+    if force:
+        kindx = 'zero' if force == 'zero_expected' else 'distinct'
     if kindx == 'distinct':
         xs = rng.sample(range(-5, 6), ns)
         xs = [(x, rng.randint(-1, 1) if cplx else 0) for x in xs]
@@ -838,8 +989,14 @@ def gen_linear(rng):
     if cplx and rng.random() < 0.2:
         b = ((0, 1), 1)
     nl = rng.random() < 0.2
+    if force:
+        nl = False
+        a = {'zero_student': ((0, 0), 1), 'prop': (rng.choice([(2, 0), (-1, 0), (3, 0)]), rng.choice([1, 2])),
+             'lin': (rng.choice([(2, 0), (-1, 0), (3, 0)]), 1), 'off': ((1, 0), 1)}.get(force, a)
+        b = {'zero_student': ((0, 0), 1), 'prop': ((0, 0), 1), 'lin': (rng.choice([(1, 0), (-2, 0)]), 1),
+             'off': (rng.choice([(1, 0), (3, 0)]), 1)}.get(force, b)
     equals = [1, 1] if rng.random() < 0.85 else rand_credit(rng, 0.6)
-    c['cfg'] = {'equals': equals, 'proportional': rand_credit(rng), 'offset': rand_credit(rng), 'linear': rand_credit(rng)}
+    c['cfg'] = cfg or {'equals': equals, 'proportional': rand_credit(rng), 'offset': rand_credit(rng), 'linear': rand_credit(rng)}
     if nl:
         ss = [gmul(x, x) for x in xs]
         den = 1
@@ -851,9 +1008,42 @@ def gen_linear(rng):
     c.update(P=[[sc(x[0], x[1])] for x in xs], S=[sc(s[0], s[1], den) for s in ss])
     c['hints'] = {'style': rng.choice(['expr', 'expr', 'script']), 'student': student,
                   'grader': rng.choice(['formula', 'matrix'])}
-    if c['tol'] == 'abs' and not nl and c['hints']['style'] == 'script' and rng.random() < 0.3:
+    if c['tol'] == 'abs' and not nl and c['hints']['style'] == 'script' and rng.random() < 0.3 and not force:
         c['jit'] = 1
     return c
+
+
+def gen_linear_group(rng):
+    """several LinearComparer cases graded with one shared comparer object, zero cases mixed with proportional /
+    linear / offset ones in random order"""
+    cfg = {'equals': [1, 1], 'proportional': rand_credit(rng, 0.15), 'offset': rand_credit(rng, 0.5),
+           'linear': rand_credit(rng, 0.3)}
+    kinds = [rng.choice(['zero_student', 'zero_expected']), rng.choice(['prop', 'lin']), rng.choice(['prop', 'lin', 'off']),
+             rng.choice(['zero_student', 'prop', 'lin', None])]
+    rng.shuffle(kinds)
+    tol = rng.choice(['abs', 'pct'])
+    group = []
+    for k in kinds:
+        c = gen_linear(rng, cfg=dict(cfg), force=k)
+        c['tol'] = tol
+        group.append(c)
+    return group
+
+
+def gen_entry_group(rng):
+    """several MatrixEntryComparer cases (different targets and shapes) graded with one shared comparer object"""
+    first = gen_entry(rng)
+    group = [first]
+    for _ in range(rng.randint(1, 3)):
+        c = gen_entry(rng)
+        c['mode'] = dict(first['mode'])
+        c['tol'] = first['tol']
+        c['jit'] = 0
+        c['hints'] = {'via': 'explicit'}
+        group.append(c)
+    first['hints'] = {'via': 'explicit'}
+    first['jit'] = 0
+    return group
 
 
 def rand_value(rng, shape):
@@ -893,11 +1083,22 @@ GENERATORS = [gen_cong, gen_between, gen_eigen, gen_eigen, gen_span, gen_span, g
 
 
 def random_cases(rng, n):
+    """-> list of groups (lists of cases); most groups are single cases"""
     out = []
-    for i in range(n):
-        c = GENERATORS[i % len(GENERATORS)](rng)
-        c['id'] = i
-        out.append(c)
+    i = 0
+    k = 0
+    while i < n:
+        k += 1
+        if k % 15 == 0:
+            group = gen_linear_group(rng)
+        elif k % 15 == 7:
+            group = gen_entry_group(rng)
+        else:
+            group = [GENERATORS[k % len(GENERATORS)](rng)]
+        for c in group:
+            c['id'] = i
+            i += 1
+        out.append(group)
     return out
 
 
@@ -910,6 +1111,18 @@ def replay(ctx, rec):
     print('signature:', {k: sig[k] for k in ('comparer', 'params', 'student_input', 'allowed', 'class')})
     if 'case' not in d:
         return False
-    obs = observe(d['case'], d.get('hints', {}))
+    if d.get('history'):
+        print('history on one comparer object:', sig.get('history_on_same_comparer_object'))
+        print('(re-run with the check itself: the history is part of the TLC-enumerated space, part "history")')
+        return False
+    hints = d.get('hints', {})
+    if d.get('before') and cache_key(d['case'], hints) is not None:
+        grader, student = build(d['case'], hints)
+        for inp in d['before']:                    # what the same grader object had graded before
+            call_grader(grader, inp)
+        obs = call_grader(grader, student)
+        print('after %r on the same grader object:' % (d['before'],))
+    else:
+        obs = observe(d['case'], hints)
     print('observed now:', obs_text(obs), repr(obs.get('msg')))
     return any(matches(obs, a) for a in sig['allowed'])
